@@ -256,6 +256,31 @@ def apalache_inductive(module, init, inv, nxt, cinit, timeout=900):
                 tool="apalache 0.58.0 (symbolic, inductive invariant)")
 
 
+def tlaps(module, expect_min=10, timeout=900):
+    """TLAPS: every proof obligation of the module must be discharged. A failure is a defect of the
+    specification or of the proof (exit 2), never a code violation."""
+    wd = run_dir("tlaps-" + module)
+    for f in os.listdir(SPEC):
+        if f.endswith(".tla"):
+            shutil.copy(os.path.join(SPEC, f), wd)
+    t0 = time.time()
+    try:
+        try:
+            p = subprocess.run(["tlapm", "--threads", "8", module + ".tla"], cwd=wd, capture_output=True, text=True, timeout=timeout)
+        except subprocess.TimeoutExpired:
+            raise Machinery("tlapm %s timed out" % module)
+        out = p.stdout + p.stderr
+        m = re.search(r"All (\d+) obligations? proved", out)
+        if not m or int(m.group(1)) < expect_min:
+            raise Machinery("tlapm %s: not all obligations proved:\n%s" % (module, out[-2500:]))
+        n = int(m.group(1))
+    finally:
+        shutil.rmtree(wd, ignore_errors=True)
+    log("[tlaps] %s: all %d obligations proved (%.1fs)" % (module, n, time.time() - t0))
+    return dict(module=module, cfg="tlapm: %d proof obligations, arbitrary constants" % n, states=1, transitions=1,
+                tool="TLAPS 1.6.0-pre (deductive proof)")
+
+
 def gen_export(module, cfg, name):
     """gen step: TLC evaluates the specification's tables and writes them as JSON."""
     out = os.path.join(WORK, "%s-%d.json" % (name, os.getpid()))
